@@ -30,6 +30,16 @@ def makePlaceholder (h : Heap) (original : Nat) (base : Option Nat) : Except Err
     let h := h.modT p ({ · with base := base })
     .ok (reroute h p original, p)
 
+/-- the tensors a tensor object holds *strong* references to: the variables of its creator, and its base -/
+def strongSucc (h : Heap) (t : Nat) : List Nat :=
+  let tt := h.t t
+  (match tt.creator with
+    | some f => (h.op f).vars
+    | none => []) ++
+  (match tt.base with
+    | some b => [b]
+    | none => [])
+
 /-- Tensors kept alive by strong references from the given roots (the tensors the program still
 holds): `_creator` → `variables`, and `_base`.  `_view_children` and `_ops` are weak. -/
 def liveSet (h : Heap) (roots : List Nat) : List Nat :=
@@ -41,15 +51,7 @@ def liveSet (h : Heap) (roots : List Nat) : List Nat :=
       | [] => seen
       | t :: r =>
         if seen.contains t then go fuel r seen
-        else
-          let tt := h.t t
-          let viaCreator := match tt.creator with
-            | some f => (h.op f).vars
-            | none => []
-          let viaBase := match tt.base with
-            | some b => [b]
-            | none => []
-          go fuel (viaCreator ++ viaBase ++ r) (t :: seen)
+        else go fuel (strongSucc h t ++ r) (t :: seen)
   go (4 * h.next + 8) roots []
 
 /-- iteration over a `WeakRefIterable`: only living referents -/
